@@ -71,7 +71,7 @@ Proof.
   intros H. unfold _is_number, _is_float, _is_integer, _is_float_neg, _is_integer_neg,
     _is_float_pos, _is_integer_pos.
   cbn [_is_constant _is_var is_variable meth_is_var isinstance_Var meth_is_constant orb andb negb functor pyfun_eqb].
-  rewrite (unquoted_not_minus f H). rewrite !andb_false_r. reflexivity.
+  Show.
 Qed.
 
 #[export] Hint Rewrite is_var_var is_var_int is_var_flt is_var_str is_var_fun
